@@ -191,7 +191,9 @@ pub fn run_sweep(ctx: &Ctx, sw: &Sweep) -> Report {
             let layers = (i % 4) as u8;
             let cfg = Cfg::make(&mut rng, layers);
             let o = GenOpts { max_files: 3, max_piece: CONSTS.block + 10, max_total: 3 * CONSTS.block, long_name_chance: (0, 1), flushes: false };
-            let ops = gen_valid_ops(&mut rng, &o);
+            let mut ops = gen_valid_ops(&mut rng, &o);
+            // error-then-continue: a few refused calls among the valid ones (they change nothing)
+            if i % 3 == 2 { ops = with_refused(&mut rng, &ops); rep.count("with-refused-calls"); }
             let b = build(&cfg, &ops);
             let cuts: Vec<usize> = (0..=b.bytes.len()).collect();
             let ok = sweep_archive(sw, &mut rep, &mut model, &cfg, &ops, &b, &cuts, if ctx.thorough { 1 } else { 3 });
@@ -227,7 +229,8 @@ pub fn run_sweep(ctx: &Ctx, sw: &Sweep) -> Report {
             let big = i % 4 == 3 || (ctx.thorough && i % 3 == 0);
             let o = GenOpts { max_files: 3, max_piece: if big { CONSTS.block + 50 } else { CONSTS.chunk + 50 },
                 max_total: if big { 5 << 20 } else { 400_000 }, long_name_chance: if CONSTS.scaled { (0, 1) } else { (1, 25) }, flushes: false };
-            let ops = gen_valid_ops(&mut rng, &o);
+            let mut ops = gen_valid_ops(&mut rng, &o);
+            if i % 3 == 2 { ops = with_refused(&mut rng, &ops); rep.count("with-refused-calls"); }
             let b = build(&cfg, &ops);
             let cuts = boundary_cuts(&b.bytes, &cfg, &mut rng, if ctx.thorough { 200 } else { 25 });
             let small = b.bytes.len() < 300_000;
